@@ -32,6 +32,10 @@ for i in range(3):
     a = capp.send_request(r, timeout=5)
     print("answer", a.result_code, hex(a.header.command_flags))
 print("tables:", len(cli._app_waiting_answer), len(srv._origin_waiting_answer), len(cli._origin_waiting_answer), len(srv._peer_waiting_answer.get("cli.example.net", {})))
+# the statistics path (deep copies of the counters, the stats logger) is part of the smoke run
+st = srv.statistics
+assert st.processed_req_per_second is not None
+srv.stats_logger.log_stats(); srv.stats_logger.log_peers()
 cli.stop(wait_timeout=5); srv.stop(wait_timeout=5)
 time.sleep(1)
 alive = [t.name for t in threading.enumerate() if t is not threading.main_thread()]
